@@ -503,7 +503,8 @@ func runSeq(c seqCase) (term, label string, trace []stepObs, counts map[string]i
 			if admitted != "AdmPanic" {
 				obs = obsQueues(ssn, c, qid, tid)
 			}
-			stepTerms = append(stepTerms, u.Pair(u.App("OAdmit", u.Pos(qid.of(rec.spec.Queue)), u.Bool(rec.spec.Preemptible),
+			// mode false: the harness plays AllocateJob as a real allocation (Statement.Allocate)
+			stepTerms = append(stepTerms, u.Pair(u.App("OAdmit", u.Bool(false), u.Bool(false), u.Pos(qid.of(rec.spec.Queue)), u.Bool(rec.spec.Preemptible),
 				u.List(ots), vjob, admitted), obs))
 			trace = append(trace, o)
 			counts["step:admit"]++
@@ -1024,6 +1025,17 @@ func Run(dir string, seed uint64, n int, tier string) error {
 	if tier == "e2e" {
 		return RunE2E()
 	}
+	if tier == "action-demo" {
+		for _, c := range actionCorpus() {
+			o := runActionCase(c)
+			fmt.Println(o.Label)
+			fmt.Printf("  counts: %v\n", o.Counts)
+			for _, p := range o.Probes {
+				fmt.Println("  " + p.Label[:strings.Index(p.Label, " OF ")])
+			}
+		}
+		return nil
+	}
 	if tier == "witness" {
 		for _, c := range []seqCase{mixedWitnessCase(), witnessCase()} {
 			term, label, trace, counts, _ := runSeq(c)
@@ -1161,10 +1173,13 @@ func Run(dir string, seed uint64, n int, tier string) error {
 				u.Pick(r, []string{"binding", "binding", "mixed", "mixed", "bound", "running"}), r.Range(2, 5), false)
 		}
 	}
+	// the ACTION stream: real sessions with the default plugin tiers on which the real actions run
+	runActions(out, root, n/10)
 	out.Stats["rule"] = "queue forests of depth 1-3 (<= 7 queues; limits and deserved quotas from {-1, 0, k/4 GPUs, k*500 mCPU, k*500 MB}); jobs of 1-3 tasks (whole, fractional x devices, gpu-memory x devices, MIG, DRA, CPU-only; dyadic quantities so that float64 arithmetic is exact). " +
 		"n = the tier's count: 40% direct cases (capacity_policy.New on hand-set Allocated/AllocatedNotPreemptible near the caps, 1/8 of them malformed: unknown job queue, dangling parent, caps below -1, queue named \"\"); 40% single-cycle sequences; 20% HISTORIES of 2 cycles (1/4 of them 3 cycles), each cycle its own session and its own case, so a run of n has about n*(1+0.2*1.25) cases (quick: 3000 -> ~3790 cases, ~615 histories, ~770 later-cycle sessions, about half of which open with a bind request in flight and nearly all of those contain a refusal, 60% an admission; see histories, later-cycle-sessions* counts), after a fixed corpus of 15 two-cycle histories (5 scenarios that take a leaf limit / an ancestor's limit over two sibling leaves / a deserved quota / a 2-GPU limit / a limit via 2-device fractions exactly to the cap in cycle 1 and retry the refused jobs in cycle 2, x the admitted pods seen as Binding, Bound, Running) and 9 boundary sequences. " +
 		"SNAPSHOT of every session (all sequences, every cycle of every history, the corpus): at least one pod in EACH of the 11 situations a queue's pod can be in when the snapshot is taken -- pending, gated, allocated (set by hand: getTaskStatus never returns it), binding (pending pod + BindRequest in flight), bound (nodeName, phase Pending), running, releasing on a node, releasing without node, succeeded, failed, unknown -- built by v1.Pod + BindRequest -> pod_info.NewTaskInfoWithBindRequest -> NodeInfo.AddTasksToNode; generated sessions: the 11 states in random order plus 0-3 more (binding/bound/running/allocated/pending/releasing) dealt over jobs of 1-3 pods, queue (deep ones preferred: depth 1/2/3 about 35/25/40%), preemptibility (50/50) and requests drawn per job, i.e. per quick run roughly 2600 pods in each state, each state with both preemptibilities and all three depths (snapshot-pod:<state>[:preemptible=..|:queue-depth=..] counts); three quarters of the finite caps are moved up by what the snapshot holds below them so that admissions and refusals keep their share (about 30% of the admit steps are admitted); corpus sessions carry the 11 states in an extra unlimited root queue. " +
 		"LATER CYCLES: the snapshot is derived from the pods as the previous session left them: pods whose bind was sent (Binding) are seen as binding (bind request still in flight; 1/3 of the histories), bound, running (the control), or per pod one of the three (mixed, 1/3); pods allocated but never committed or whose bind failed are pending again, evicted pods terminating or gone, running pods sometimes finished; jobs that are entirely pending again after a refusal are retried first (<= 3), then 2-5 decisions on new jobs. " +
-		"STEPS: 4-9 probe/admit/release decisions through the real session (proportion plugin's gates and handlers, one Statement per job: Allocate/Rollback, Evict; releases also hit snapshot pods in every holding status); in 2/3 of the single-cycle sequences and in all histories an admitted job is committed right away through the real Statement.Commit against a cache whose Bind fails for one chosen task (first / middle / last task of the job) or for none; after session open and after every step the plugin's per-queue Allocated and, independently, the set of pods whose status holds resources (Allocated/Pipelined/Binding/Bound/Running in the job's pod map) are observed; at session open also QueueFairShare of the root queues (the exported view on Request; skipped, fair-share-skipped count, when a pending gpu-memory pod's devices*memory/100 is not exact in float64); non-trivial = a direct case with at least one refusing gate, or a sequence with both an admitted and a refused job; distinct by full input"
+		"STEPS: 4-9 probe/admit/release decisions through the real session (proportion plugin's gates and handlers, one Statement per job: Allocate/Rollback, Evict; releases also hit snapshot pods in every holding status); in 2/3 of the single-cycle sequences and in all histories an admitted job is committed right away through the real Statement.Commit against a cache whose Bind fails for one chosen task (first / middle / last task of the job) or for none; after session open and after every step the plugin's per-queue Allocated and, independently, the set of pods whose status holds resources (Allocated/Pipelined/Binding/Bound/Running in the job's pod map) are observed; at session open also QueueFairShare of the root queues (the exported view on Request; skipped, fair-share-skipped count, when a pending gpu-memory pod's devices*memory/100 is not exact in float64); non-trivial = a direct case with at least one refusing gate, or a sequence with both an admitted and a refused job; distinct by full input. " +
+		"ACTION stream (n/10 sessions after a corpus of 16; quick: 316 sessions + ~1100 gate probes): real sessions with EVERY plugin of the default tiers opened on real NodeInfo / PodGroupInfo / QueueInfo objects (1-3 nodes of 2-8 GPUs, GPU memory 100 / 8000 / 40000 MiB; queue trees of depth 1-3: leaf at top level, leaf under a department, leaf under a mid-level queue under a department, sibling or cousin leaves; about 30/40/30%) on which the REAL actions run: allocate, then preempt / reclaim / consolidation (the scheduler's order or another). Jobs are gangs. The nodes are (nearly) full of running whole-GPU jobs: victims of priority 50 in the pending job's own queue (family preempt, 3/8), in a sibling / cousin queue that runs over its deserved quota (reclaim, 2/8), spread so that no node has room for the job's pods although the cluster has (consolidation, 1/8), or drawn at random (mixed, 2/8); pending jobs of 1-3 pods asking 1-4 WHOLE GPUs per pod, a fraction (0.25/0.5/0.75) on 2-3 devices (now and then 1), mixes of both, 1 in 14 pods a gpu-memory request (single- or multi-device: the known finding, met through the real preempt action too), priority 75, or 110 = non-preemptible in a third of the preempt sessions. The GPU limit of ONE queue of the pending job's chain (leaf, mid level or department) -- and for a non-preemptible job in 2/3 of the cases the deserved quota -- is placed at (held now - what the victims needed for the job to fit free below it) + k, k drawn from 0..N (N = GPUs of the whole job, quarter steps, whole numbers preferred) in 2/3 of the sessions and N or N+1 in the rest: the cap lies below, INSIDE and above the span between 'one more device' and 'all devices of the job'; the other caps of the chain are unlimited or generous. Recorded: every Bind / TaskPipelined / Evict that reaches the cache, in order, with the pod's AcceptedResource at that moment; a Statement.Commit starts at a cache call before which a handler fired or a gate ran; at its first call the plugin's per-queue Allocated and the pods whose status holds resources are observed, and again when each action returns. Per commit the case holds ORelease per Evict and one OAdmit per job placed (mode pipeline-only for the solver actions) carrying the verdict of the REAL capacity_policy.IsJobOverQueueCapacity / IsTaskAllocationOnNodeOverCapacity (what Session.IsJobOverQueueCapacityFn dispatches to) on the usage recomputed from the pods before the placement: snapshot pods in the allocated class minus the evicted plus what was bound / nominated before in this cycle; the allocate action's job-level refusals (seen through the wrapped Session.IsJobOverCapacityFns[0], verdict of the live session) are OAdmit .. AdmNo steps at their place between the commits. counts action-*: commits per action (quick: ~145 preempt, ~27 reclaim, ~16 consolidation, ~25 allocate), jobs placed per action (multi-device jobs: ~120 by preempt, ~19 by reclaim, ~16 by consolidation), victims nominated again elsewhere, action-solver-multi-device-job-refused-by-job-gate-only = solver simulations in which a multi-device job passes every node-level gate and is refused by the job-level gate alone (~80 per quick run: exactly the decisions that go wrong when the job-level gate does not run in pipeline-only mode), action-solver-nomination-without-any-job-gate-call (absent = 0 on the unchanged tree). GATE PROBES (origin action-probe): at the first refusing and first accepting call per action and job (<= 5 per session) of the wrapped job-level gate -- allocate action and solver simulations alike, i.e. also in the simulated state after a scenario's evictions -- the three real gates of the live session are evaluated and the usage is recomputed from the pods as they are at that moment; each is a direct case (OProbe on queues with that usage). Not generated in the action stream: DRA claims, MIG, running fraction pods. non-trivial (action): a session with at least one solver commit, keyed by family / queues / nodes / commits per action / nominations whose job-level verdict is a refusal; a probe keyed by action and verdicts"
 	return out.Flush()
 }
